@@ -3,6 +3,9 @@
 set -e
 cd /verif
 export GOFLAGS=-mod=mod GOPROXY=off GOSUMDB=off GOTOOLCHAIN=local
+mkdir -p .build
+(cd extract && go build -o ../.build/extract . && ../.build/extract /repo /verif/lean/WireV/Generated/Tables.lean)
+(cd harness/irparse && go build -o ../../.build/irparse .)
 (cd lean && lake build 2>&1 | grep -v '^✔' | tail -20)
 python3 -c "
 import sys; sys.path.insert(0,'/verif')
